@@ -9501,7 +9501,10 @@ def write(node, f, pretty=True, **kwargs):
         if f.lower().endswith("svgz"):
             import gzip
 
-            f = gzip.open(f, "wb")
+            # The file is opened here, so it is finished and closed here.
+            with gzip.open(f, "wb") as gz:
+                tree.write(gz, **kwargs)
+            return
     except AttributeError:
         # might be a pathlib.Path()
         pass
@@ -9563,10 +9566,25 @@ def _write_node(node, xml_tree=None, viewport_transform=None):
                 vt = m
         except ValueError:
             pass
+        if viewport_transform:
+            # Embedded, the content also carries the viewport transforms of the enclosing svg elements.
+            vt = viewport_transform * vt if vt else viewport_transform
         for child in node:
             _write_node(child, xml_tree, vt)
     elif isinstance(node, Ellipse):
         xml_tree = subxml(xml_tree, SVG_TAG_ELLIPSE)
+        if node.cx:
+            xml_tree.set(SVG_ATTR_CENTER_X, str(node.cx))
+        if node.cy:
+            xml_tree.set(SVG_ATTR_CENTER_Y, str(node.cy))
+        if node.rx:
+            xml_tree.set(SVG_ATTR_RADIUS_X, str(node.rx))
+        if node.ry:
+            xml_tree.set(SVG_ATTR_RADIUS_Y, str(node.ry))
+    elif isinstance(node, Circle) and node.rx != node.ry:
+        # Reified by an uneven scale a circle has two radii, only an ellipse can state them.
+        xml_tree = subxml(xml_tree, SVG_TAG_ELLIPSE)
+        xml_tree.attrib.pop(SVG_ATTR_RADIUS, None)
         if node.cx:
             xml_tree.set(SVG_ATTR_CENTER_X, str(node.cx))
         if node.cy:
@@ -9698,7 +9716,7 @@ def _write_node(node, xml_tree=None, viewport_transform=None):
             # Cannot write generic svgelement form
             return
     # Write Transform
-    if hasattr(node, "transform") and not isinstance(node, Group):
+    if hasattr(node, "transform") and not isinstance(node, (Group, Use)):
         t = node.transform
         if viewport_transform:
             t = t * viewport_transform
